@@ -241,7 +241,9 @@ TEXT = {
                 "with their own signature, whole histories) is checked on the REAL code: "
                 "prediction, then the merge recorded by each candidate recorder and verified.",
         "note": TB + "Only fast-forward merges. Open findings on this tree: F27 (threshold-1 rules are reported 'not possible' without "
-                "approvals), F28 (an authorization envelope without signatures makes the prediction fail hard). F1 (global rules) is fixed.",
+                "approvals), F28 (an authorization envelope without signatures makes the prediction fail hard), F66 (the loop stops at the "
+                "first rule that is one principal short although a later rule is already met: 'signature needed' is reported for a merge "
+                "that verifies whoever records it). F1 (global rules) is fixed.",
         "technique": "Lean 4 proof (case analysis / induction over the verifier loop) + differential correspondence: predict, record, verify",
     },
     "C10": {
